@@ -18,7 +18,7 @@ MsgAll == {"plain", "leadspace", "slashes", "blockcm", "placeholders", "escquote
 MsgFew == {"plain", "validref", "leadspace", "unicodefirst"}
 LayoutsAll == {"tight", "space", "newline", "crlf", "blockcomment", "linecomment", "tabs", "formfeed", "unicodews"}
 ContextsAll == {"linestart", "indent", "brace", "arrow", "return", "letunderscore", "afterstring", "aftermultibyte", "break", "tabindent", "afterstmt", "afterurl",
-                "afterrawstring", "afterrawbackslash", "afterbytechar", "afterlifetime"}
+                "afterrawstring", "afterrawbackslash", "afterbytechar", "afterlifetime", "afterhexchar", "afterunicodechar"}
 DirsAll == {"none", "ignore", "nokvp"}
 BothModes == {"structured", "unstructured"}
 =============================================================================
